@@ -108,7 +108,7 @@ def parse_history(base, r, n):
         seq = []
         def emit(k, x):
             if m["op"] == "pad":
-                ks = f"(custom {k[1]} {k[2]})" if isinstance(k, tuple) else k
+                ks = f"({k[0]} {k[1]} {k[2]})" if isinstance(k, tuple) else k
                 seq.append((f"(pad {ks} {gen.B(x)} {m['n']})", {"op": "pad", "kind": k, "bytes": x, "n": m["n"]}))
             else:
                 seq.append(P(k, x))
@@ -116,7 +116,7 @@ def parse_history(base, r, n):
         if m["op"] == "pad" and len(b) >= 16 and len(b) % 4 == 0 and m["n"] + 4 <= 252 and m["n"] % 4 == 0:
             # the same padded length, header word and SSRC with 4 octets less payload and 4 more padding
             x = b[:2] + struct.pack(">H", (len(b) - 4) // 4 - 1) + b[4:len(b) - 4]
-            ks = f"(custom {kind[1]} {kind[2]})" if isinstance(kind, tuple) else kind
+            ks = f"({kind[0]} {kind[1]} {kind[2]})" if isinstance(kind, tuple) else kind
             seq.append((f"(pad {ks} {gen.B(x)} {m['n'] + 4})", {"op": "pad", "kind": kind, "bytes": x, "n": m["n"] + 4}))
             emit(kind, b)
         for k, x in vs[:7]:
